@@ -10,6 +10,9 @@ CONSTS = """  Names <- %(P)sNames
   Msgs <- %(P)sMsgs
   Texts <- %(P)sTexts
   Pkgs <- %(P)sPkgs
+  Opts <- %(opts)sOpts
+  MaxRuns = %(mr)d
+  MaxSets = %(ms)d
   NameAlpha = {%(na)s}
   NameLen = %(nl)d
   FileAlpha = {%(fa)s}
@@ -30,6 +33,7 @@ INVARIANTS TypeOK OneFilePerGroup NoOverwrite LastContentFaithful SuiteCountsTru
 CHECK_DEADLOCK FALSE
 """
 GEN = "SPECIFICATION GSpec\nCONSTANTS\n" + CONSTS + """  D = %(D)d
+  RunIgnModes = {%(ri)s}
 INVARIANTS Dump
 CHECK_DEADLOCK FALSE
 """
@@ -40,6 +44,9 @@ CONSTANTS
   Msgs = {}
   Texts = {}
   Pkgs = {}
+  Opts = {}
+  MaxRuns = 0
+  MaxSets = 0
   LineNos = {}
   MaxGroups = 0
   MaxTests = 0
@@ -96,19 +103,98 @@ def long_exec(rng):
     return ex
 
 
-def random_exec(rng, max_groups, max_tests, filtered=0.0):
+SWEEP_LENGTHS = [1000, 2000, 3000, 4000, 5000, 8000, 16000, 40000]
+
+
+def dense(rng, n, phase, gap=2):
+    """n bytes in which characters that need escaping are as dense as they get: `phase' letters, then a special character
+    followed by 0..gap letters, again and again - in the written form, references of every length (4, 5, 6 bytes) begin at
+    every offset, so wherever a writer cuts, pads or re-buffers a value, a reference straddles that place in some value"""
+    out = [rng.randint(97, 121) for _ in range(phase)]
+    while len(out) < n:
+        out.append(rng.choice(XML_SPECIALS))
+        out += [rng.randint(97, 121) for _ in range(rng.randint(0, gap))]
+    return out[:n]
+
+
+def sweep_execs(rng, lengths, name_limit):
+    """length sweep: for every length n (geometric, 1 000 .. 40 000 bytes) one run whose failure message and printed text are n
+    bytes dense in characters that need escaping, and whose test name, source path, failure path (and, up to name_limit, group
+    and package name) are that long as well; a second message of n bytes is sparse in specials (written length ~ n).  No length
+    is special to the check: a writer that limits, truncates or chunks a value anywhere in this range shows up"""
+    out = []
+    for n in lengths:
+        m = min(n, name_limit)
+        short = lambda: rstr(rng, 1, 8)
+        grp = dense(rng, m, rng.randrange(6)) if n <= name_limit else rstr(rng, 1, 10, extra=FNAME_ILLEGAL)
+        pkg = dense(rng, m // 2, rng.randrange(6)) if n <= name_limit and rng.random() < 0.5 else rstr(rng, 0, 6, extra=FNAME_ILLEGAL)
+        ex = [["start", hx(pkg), "", "", rng.randrange(6), "0"], ["group", hx(grp), "", "", 0, ""]]
+        tfile = rstr(rng, 1, 14, extra=[47, 46])
+        ex += [["test", hx(short()), hx(tfile), "", 12, "n"],
+               ["print", hx(dense(rng, n, rng.randrange(6))), "", "", 0, ""],
+               ["fail", hx(tfile), "", hx(dense(rng, n, rng.randrange(6))), 15, ""],
+               ["endtest", "", "", "", 0, ""]]
+        tfile = dense(rng, m, rng.randrange(6))
+        ex += [["test", hx(dense(rng, m, rng.randrange(6))), hx(tfile), "", 7, "n"],
+               ["fail", hx(dense(rng, m, rng.randrange(6))), "", hx(rstr(rng, n, n, special=0.02)), 3, ""],
+               ["endtest", "", "", "", 0, ""],
+               ["endgroup", "", "", "", 0, ""], ["end", "", "", "", 0, ""]]
+        out.append(ex)
+    return out
+
+
+def random_exec(rng, max_groups, max_tests, filtered=0.0, reporter_life=False):
     """filtered = share of the tests that a name filter keeps from running (names containing 'z': the harness installs the
-    filter "everything but z"; rstr never produces a z); with a filter, about a quarter of the groups have no running test"""
+    filter "everything but z"; rstr never produces a z); with a filter, about a quarter of the groups have no running test.
+    Every run gets run options (colour, verbosity) at random.  reporter_life: the reporter is used as an object with a life of
+    its own - setPackageName and createFileName calls wherever no group is open (before the first group, between two groups,
+    after the last, between two runs, after the last run), and up to three runs served by one reporter (a later run repeats
+    the tests of the first, as with -r, or brings its own)."""
     pkg = [] if rng.random() < 0.4 else rstr(rng, 1, 8, extra=FNAME_ILLEGAL)
-    ex = [["start", hx(pkg), "", "", 0, rng.choice(["0", "0", "1"])]]
-    run_ignored = ex[0][5] == "1"
+    ex = [["start", hx(pkg), "", "", rng.randrange(6), rng.choice(["0", "0", "1"])]]
+    runs = rng.choice([1, 2, 2, 3]) if reporter_life else 1
+    groups_seen = []
+
+    def mid():
+        while reporter_life and rng.random() < 0.35:
+            if rng.random() < 0.6:
+                ex.append(["setpkg", hx([] if rng.random() < 0.25 else rstr(rng, 1, 8, extra=FNAME_ILLEGAL)), "", "", 0, ""])
+            else:
+                g = rng.choice(groups_seen) if groups_seen and rng.random() < 0.5 else rstr(rng, 1, 10, extra=FNAME_ILLEGAL)
+                ex.append(["fname", hx(g), "", "", 0, ""])
+
+    first = None
+    for r in range(runs):
+        if r > 0:
+            mid()
+            ex.append(["restart", "", "", "", 0, rng.choice(["0", "0", "1"])])
+        run_ignored = ex[-1][5] == "1"
+        if first is not None and first[0] == run_ignored and rng.random() < 0.5:
+            groups = first[1]                            # the same tests again
+        else:
+            groups = run_groups(rng, max_groups, max_tests, filtered, run_ignored)
+        if first is None:
+            first = (run_ignored, groups)
+        for g in groups:
+            mid()
+            groups_seen.append(bytes.fromhex(g[0][1]))
+            ex.extend(g)
+        mid()
+        ex.append(["end", "", "", "", 0, ""])
+    mid()
+    return ex
+
+
+def run_groups(rng, max_groups, max_tests, filtered, run_ignored):
+    """the groups of one run: a list of lists of script lines (group ... endgroup)"""
+    groups = []
     used = set()
     for _ in range(rng.randint(0, max_groups)):
         g = rstr(rng, 1, 10, extra=FNAME_ILLEGAL)
         while bytes(g) in used:                          # one group = one run of consecutive tests (hypothesis of the property)
             g = g + [103]
         used.add(bytes(g))
-        ex.append(["group", hx(g), "", "", 0, ""])
+        ex = [["group", hx(g), "", "", 0, ""]]
         files = [rstr(rng, 1, 14, extra=[47, 46]) for _ in range(2)]
         pskip = 0.0 if not filtered else (1.0 if rng.random() < 0.25 else filtered)
         for _ in range(rng.randint(1, max_tests)):
@@ -130,8 +216,8 @@ def random_exec(rng, max_groups, max_tests, filtered=0.0):
                         ex.append(["fail", hx(ffile), "", hx(rstr(rng, 0, 24)), rng.choice([tline, tline + 3, 5]), ""])
             ex.append(["endtest", "", "", "", 0, ""])
         ex.append(["endgroup", "", "", "", 0, ""])
-    ex.append(["end", "", "", "", 0, ""])
-    return ex
+        groups.append(ex)
+    return groups
 
 
 def nontrivial(ex):
@@ -143,22 +229,46 @@ def nontrivial(ex):
     return False
 
 
+def fname_ok(d, pkg, group):
+    """FileNameOK of JUnit.tla"""
+    raw = b"cpputest_" + (pkg + b"_" if pkg else b"") + group
+    portable = set(b"0123456789abcdefghijklmnopqrstuvwxyzABCDEFGHIJKLMNOPQRSTUVWXYZ-._")
+    return len(d) == len(raw) + 4 and d.endswith(b".xml") and all(
+        x not in FNAME_ILLEGAL and (r not in portable or x == r) for x, r in zip(d, raw))
+
+
 def key_fn(kind, ex, idx, observed):
     """key = which clause of the statement the rejected call contradicts (for a rejected document: what is wrong with it)"""
     op = ex[idx][0] if 0 <= idx < len(ex) else "?"
+    # the package and the run-ignored mode in force at the rejected call; has the reporter had a life before this run / group?
+    pkg, ri, life = b"", False, ""
+    for l in ex[:max(idx, 0)]:
+        if l[0] == "start":
+            pkg, ri = bytes.fromhex(l[1]), l[5] == "1"
+        elif l[0] == "restart":
+            ri, life = l[5] == "1", ":reporter-reused-or-package-changed"
+        elif l[0] == "setpkg":
+            pkg, life = bytes.fromhex(l[1]), ":reporter-reused-or-package-changed"
+        elif l[0] == "fname":
+            life = ":reporter-reused-or-package-changed"
+    if kind == "reject" and op == "fname":
+        return "reject:fname" + life
     if kind == "reject" and op == "endgroup":
         g = max(i for i in range(idx) if ex[i][0] == "group")
         group = bytes.fromhex(ex[g][1])
-        tests, attrs = [], [bytes.fromhex(ex[0][1]), group]
+        tests, attrs, longest = [], [pkg, group], 0
         for l in ex[g:idx]:
+            longest = max([longest] + [len(x) // 2 for x in l[1:4]])
             if l[0] == "test":
-                ign = l[5] == "i" and ex[0][5] != "1"
-                tests.append({"name": bytes.fromhex(l[1]), "file": bytes.fromhex(l[2]), "line": int(l[4]), "ign": ign, "fails": 0})
+                ign = l[5] == "i" and not ri
+                tests.append({"name": bytes.fromhex(l[1]), "file": bytes.fromhex(l[2]), "line": int(l[4]), "ign": ign, "fails": 0, "msgs": []})
                 attrs += [tests[-1]["name"], tests[-1]["file"]]
             elif l[0] == "fail":
                 tests[-1]["fails"] += 1
+                tests[-1]["msgs"].append(bytes.fromhex(l[3]))
                 attrs.append(bytes.fromhex(l[1]))
         special = any(ATTR_BREAKERS & set(v) for v in attrs)
+        long_ = ":value-of-1000-bytes-or-more" if longest >= 1000 else ""
         doc = (observed or {}).get("doc") or {}
         if not tests:                                    # a group none of whose tests ran (all filtered out)
             if (observed or {}).get("nfiles", 0) > 1:
@@ -167,14 +277,16 @@ def key_fn(kind, ex, idx, observed):
                 return "reject:endgroup:group-without-running-test:ill-formed-xml"
             return "reject:endgroup:group-without-running-test:written-to-the-file-of-a-group-that-ran"
         if not doc.get("wellformed"):
+            if long_:
+                return "reject:endgroup:ill-formed-xml" + long_
             return "reject:endgroup:ill-formed-xml" + (":name-or-path-with-xml-special-in-attribute" if special else "")
         cases = doc.get("cases", [])
         names_differ = bytes(doc["suite"]["name"]) != group or len(cases) != len(tests) or \
             any(bytes(c["name"]) != t["name"] or bytes(c["file"]) != t["file"] for c, t in zip(cases, tests))
-        if names_differ and special:
+        if names_differ and special and not long_:
             return "reject:endgroup:name-changed:name-or-path-with-xml-special-in-attribute"
         if not doc.get("structure") or len(cases) != len(tests) or names_differ or any(c["line"] != t["line"] for c, t in zip(cases, tests)):
-            return "reject:endgroup:test-case-elements"
+            return "reject:endgroup:test-case-elements" + long_
         if doc["suite"]["tests"] != len(tests):
             return "reject:endgroup:suite-test-count"
         if doc["suite"]["failures"] != sum(1 for t in tests if t["fails"]):
@@ -183,7 +295,11 @@ def key_fn(kind, ex, idx, observed):
             return "reject:endgroup:skipped-marker"
         if any(c["failed"] != (t["fails"] > 0) for c, t in zip(cases, tests)):
             return "reject:endgroup:failure-element"
-        return "reject:endgroup:texts-or-file-name"
+        if any(c["failed"] and not any(bytes(c["message"]).endswith(m) for m in t["msgs"]) for c, t in zip(cases, tests)):
+            return "reject:endgroup:failure-message" + long_
+        if (observed or {}).get("nfiles", 0) != 1 or not fname_ok(bytes(doc.get("fname", [])), pkg, group):
+            return "reject:endgroup:file-name" + life
+        return "reject:endgroup:captured-output-or-raw-text" + long_
     return "%s:%s" % (kind, op)
 
 
@@ -211,9 +327,12 @@ def run(ctx):
 
     # ---- leg 1: the writer design has the property (small runs exhaustively; encoding theorem over all short strings)
     base = {"P": "MC", "na": "97, 60", "nl": 1, "fa": "47", "fl": 1, "ma": "38", "ml": 0, "pa": "34", "pl": 1, "lines": "3",
-            "mg": 2, "mt": 2, "mf": 2, "mp": 0, "el": 3 if quick else 4}
+            "mg": 2, "mt": 2, "mf": 2, "mp": 0, "el": 3 if quick else 4, "opts": "Plain", "mr": 1, "ms": 0}
+    # "reporter": the reporter as an object with a life: package changes and file-name queries wherever no group is open, two runs
+    # served by one reporter, every combination of run options
     mcs = [("structure", dict(base, mt=2) if quick else dict(base, mt=3, mf=1)),
            ("output", dict(base, mt=1, mf=0, mp=1, pl=0)),
+           ("reporter", dict(base, na="97", fa="47", pa="112, 60", mg=2 if quick else 3, mt=1, mf=0 if quick else 1, mp=0, mr=2, ms=1 if quick else 3, opts="All")),
            ("strings", dict(base, na="97, 60, 38", nl=1 if quick else 2, fa="47, 34", ma="38, 10", ml=1, lines="3, 12", mg=1, mt=1, mf=1, mp=1))]
     ctx.notes["model"] = []
     for lab, c in mcs:
@@ -226,7 +345,7 @@ def run(ctx):
     # ---- leg 2: complete runs generated by TLC, executed through the real registry and the real JUnitTestOutput
     nontriv = set()
     g0 = {"P": "G", "na": "97, 60", "nl": 1, "fa": "47, 34", "fl": 1, "ma": "38", "ml": 1, "pa": "34", "pl": 1, "lines": "3, 12",
-          "mg": 1, "mt": 1, "mf": 1, "mp": 1, "D": 12}
+          "mg": 1, "mt": 1, "mf": 1, "mp": 1, "D": 12, "opts": "Plain", "mr": 1, "ms": 0, "ri": "TRUE, FALSE"}
     gens = [
         ("bfs1", g0, None, None),
         ("bfs2", dict(g0, na="38, 97", fa="60", ma="38", ml=0, pl=0, lines="3", mg=2, mt=1 if quick else 2, mf=2, mp=0, D=24), None, None),
@@ -234,6 +353,18 @@ def run(ctx):
         ("sim", dict(g0, na="97, 38, 60, 47", nl=2, fa="102, 34, 38", fl=2, ma="109, 62, 10, 13, 39", ml=2, pa="112, 60", pl=2, lines="0, 12",
                      mg=6, mt=4, mf=3, mp=1, D=40), 6 if quick else 60, 60),
     ]
+    # the reporter's own life (JUnit.tla SetPackage / AskFileName / NextRun) and the run options, exhaustively on small runs
+    # (quick: two groups in one run with one call on the reporter anywhere / one group in each of two runs with one call anywhere,
+    #  run-ignored mode off; thorough: two calls, both modes)
+    r0 = dict(g0, na="97", fa="47", ma="38", ml=0, pa="60", pl=1, lines="3", mt=1, mf=0, mp=0, D=20, ri="FALSE" if quick else "TRUE, FALSE")
+    gens[1:1] = [
+        ("bfs-reporter-groups", dict(r0, na="97, 60", mg=2, mr=1, ms=1 if quick else 2), None, None),
+        ("bfs-reporter-runs", dict(r0, mg=1, mr=2, ms=1 if quick else 2), None, None),
+        ("bfs-options", dict(g0, na="60", fa="47", ma="38", ml=0, pl=0, lines="3", mg=1, mt=1, mf=1, mp=1, opts="All", D=12), None, None),
+    ]
+    if quick:
+        del gens[3]      # quick: the options vary in the simulation and in the random driver only
+    gens[-1][1].update(opts="All", mr=3, ms=6)
     for lab, c, sim, depth in gens:
         gcfg = ctx.write_cfg("Gen_JUnit_" + lab, GEN % c)
         g = ctx.tlc("Gen_JUnit", gcfg, workers=8, simulate=sim, depth=depth, timeout=1500, heap="8g")
@@ -249,21 +380,30 @@ def run(ctx):
 
     # ---- leg 3: seeded random runs of up to 30 groups, every printable character, XML specials dense in every string
     nexec, mg, mt = (40, 10, 4) if quick else (200, 30, 6)
-    execs = [random_exec(ctx.rng, mg, mt, filtered=0.0 if i % 2 else 0.3) for i in range(nexec)]
+    execs = [random_exec(ctx.rng, mg, mt, filtered=0.0 if i % 2 else 0.3, reporter_life=i % 4 >= 2) for i in range(nexec)]
     ctx.sample({"source": "seeded random driver", "execution": ["\t".join(map(str, l)) for l in execs[0][:14]]})
     conform(ctx, "random", execs, run_harness, "Trace_JUnit", tcfg, pcfg, key_fn, tlc_timeout=1500)
     # long values (see the same leg of C20: buffering / truncation defects need values longer than any the small alphabets produce)
     lexecs = [long_exec(ctx.rng) for _ in range(6 if quick else 60)]
     conform(ctx, "long-values", lexecs, run_harness, "Trace_JUnit", tcfg, pcfg, key_fn, tlc_timeout=1500)
+    # ... and no bound on the length is part of the statement: a geometric sweep of lengths up to 40 000 bytes (a failure message
+    # cut at 4096 written characters went unnoticed while the longest generated value had 400 bytes)
+    sexecs = sweep_execs(ctx.rng, SWEEP_LENGTHS, 2000) if quick else \
+        [e for _ in range(3) for e in sweep_execs(ctx.rng, SWEEP_LENGTHS, 40000)]
+    conform(ctx, "length-sweep", sexecs, run_harness, "Trace_JUnit", tcfg, pcfg, key_fn, tlc_timeout=1500, heap="8g")
+    lexecs += sexecs
     ctx.evaluations += sum(len(e) for e in lexecs)
     ctx.evaluations += sum(len(e) for e in execs)
     for e in execs:
         if nontrivial(e):
             nontriv.add(json.dumps(e))
     return ctx.finish(
-        rule="executions = complete runs (registry callbacks start..end) generated by TLC from JUnit.tla (exhaustive for 1 group x 1 test with "
-             "special characters in every string, 2 groups x 1-2 tests, 1 group x 3-4 tests; simulation up to 6 groups) plus seeded random runs of "
-             "up to 10/30 groups, each executed by the real TestRegistry on the real JUnitTestOutput; every file written through the FOpen/FPuts/FClose "
+        rule="executions = lives of one reporter object (one or more complete runs, registry callbacks start..end, with setPackageName / "
+             "createFileName calls wherever no group is open and colour / verbosity options per reporter) generated by TLC from JUnit.tla "
+             "(exhaustive for 1 group x 1 test with special characters in every string, 2 groups x 1-2 tests, 1 group x 3-4 tests, 2 runs x 2 groups "
+             "with 2 package changes / queries, all 6 option combinations; simulation up to 3 runs x 6 groups) plus seeded random runs of "
+             "up to 10/30 groups and a length sweep (values of 1 000 .. 40 000 bytes dense in characters that need escaping), each executed by "
+             "the real TestRegistry on the real JUnitTestOutput; every file written through the FOpen/FPuts/FClose "
              "seams is parsed by expat (tools/junit_project.py) and the per-callback log is validated by TLC; distinct = distinct scripts; "
              "non-trivial = has a failure, printed text, an ignored test, or a name with an XML-special or file-name-illegal character",
         distinct_nontrivial=len(nontriv), exhaustive=False,
@@ -271,6 +411,9 @@ def run(ctx):
                      "with a name filter set, `the tests of the group' are the tests that ran; for a group none of whose tests ran nothing is asked "
                      "except that whatever is written stays well-formed and does not go to the file of a group that ran earlier",
                      "names, paths and texts are byte strings over printable ASCII plus CR and LF (no TAB, no other control characters); names are non-empty",
-                     "the captured output of a file may be the text printed during its group or during the run so far (the statement does not say which)",
+                     "the package name changes only while no group is open (setPackageName before the first group, between groups, between runs); the file "
+                     "of a group is named after the package in force when the group ends; createFileName(g) answers for the package in force",
+                     "file names written under different package names may coincide (as may those of group names that differ in illegal characters only)",
+                     "the captured output of a file may be the text printed during its group or since the reporter was created (the statement does not say which)",
                      "the failure element must carry the message of one of the test's failures (the reporter keeps the first); its location prefix is not checked",
                      "timestamps, durations, assertion counts, classname and hostname attributes are not checked beyond well-formedness"])
